@@ -38,7 +38,7 @@ import (
 )
 
 func init() {
-	lib.Register(&lib.Prop{ID: "C09", Level: "exploration", Run: run})
+	lib.Register(&lib.Prop{ID: "C09", Level: "exploration", Run: run, Sub: map[string]func([]string) int{"batch": childBatch}})
 }
 
 // ---------------------------------------------------------------- backend
@@ -91,7 +91,12 @@ func startBackend() (*backend, error) {
 		return nil, err
 	}
 	b := &backend{hits: map[string]int{}, ln: ln, addr: "http://" + ln.Addr().String()}
-	go (&http.Server{Handler: b}).Serve(ln)
+	srv := &http.Server{Handler: b}
+	// one connection per relayed request: the proxy's transports are never
+	// closed by casket, idle upstream connections of stopped instances would
+	// pile up as open descriptors on both ends
+	srv.SetKeepAlivesEnabled(false)
+	go srv.Serve(ln)
 	return b, nil
 }
 
@@ -192,8 +197,23 @@ func (o obs) short() map[string]interface{} {
 
 // ---------------------------------------------------------------- monitor
 
+// recorder is the part of lib.Ctx the oracles report through; the child
+// process that runs metamorphic batches implements it with a buffer that is
+// handed to the parent at the end (see child.go).
+type recorder interface {
+	Journal(format string, args ...interface{})
+	Eval(n int)
+	Nontrivial(key string)
+	Count(name string, n int64)
+	Max(name string, v int64)
+	Violation(key, what string, witness interface{})
+	Inconclusive(what string)
+}
+
 type monitor struct {
-	c        *lib.Ctx
+	c        recorder
+	ctx      *lib.Ctx // parent only
+	dir      string   // scratch directory (logs below it)
 	root     string
 	be       *backend
 	bat      []breq
@@ -206,6 +226,43 @@ type monitor struct {
 	invPairs map[string]bool
 	mwPairs  map[string]bool
 	answers  []map[string]bool // per battery request: distinct answers seen over all blocks
+	ports    *portBudget
+}
+
+// portBudget bounds the number of listeners this process holds at any time:
+// lib.FreePorts hands out ports from a private range of 600.
+type portBudget struct {
+	mu   sync.Mutex
+	cond *sync.Cond
+	free int
+}
+
+func newPortBudget(n int) *portBudget {
+	b := &portBudget{free: n}
+	b.cond = sync.NewCond(&b.mu)
+	return b
+}
+
+func (b *portBudget) acquire(n int) {
+	b.mu.Lock()
+	for b.free < n {
+		b.cond.Wait()
+	}
+	b.free -= n
+	b.mu.Unlock()
+}
+
+func (b *portBudget) release(n int) {
+	b.mu.Lock()
+	b.free += n
+	b.mu.Unlock()
+	b.cond.Broadcast()
+}
+
+// stop stops an instance started by startSites and returns its ports.
+func (m *monitor) stop(inst *casket.Instance, nsites int) {
+	lib.StopWait(inst)
+	m.ports.release(nsites)
 }
 
 // middleware tells whether a directive of the pool adds a handler to the
@@ -249,12 +306,18 @@ func bindErr(err error) bool {
 func (m *monitor) startSites(tag string, b *block, orders [][]int) ([]*site, *casket.Instance, string, error) {
 	var lastErr error
 	var text string
+	m.ports.acquire(len(orders))
 	for attempt := 0; attempt < 8; attempt++ {
 		ports := lib.FreePorts(len(orders))
+		if dupPorts(ports) {
+			m.c.Count("port_collisions_retried", 1)
+			lastErr = fmt.Errorf("bind: port allocator returned a duplicate")
+			continue
+		}
 		sites := make([]*site, len(orders))
 		var cf strings.Builder
 		for i, o := range orders {
-			ld := filepath.Join(m.c.Dir, "logs", tag, fmt.Sprintf("s%d", i))
+			ld := filepath.Join(m.dir, "logs", tag, fmt.Sprintf("s%d", i))
 			os.RemoveAll(ld)
 			os.MkdirAll(ld, 0o755)
 			sites[i] = &site{order: o, port: ports[i], logDir: ld}
@@ -273,7 +336,19 @@ func (m *monitor) startSites(tag string, b *block, orders [][]int) ([]*site, *ca
 		}
 		m.c.Count("port_collisions_retried", 1)
 	}
+	m.ports.release(len(orders))
 	return nil, nil, text, lastErr
+}
+
+func dupPorts(ps []int) bool {
+	seen := map[int]bool{}
+	for _, p := range ps {
+		if seen[p] {
+			return true
+		}
+		seen[p] = true
+	}
+	return false
 }
 
 func identity(n int) []int {
@@ -295,7 +370,7 @@ func (m *monitor) runBlock(tag string, b *block, perms [][]int, confirmLogs bool
 		m.loadFailure(tag, b, orders, text, err)
 		return
 	}
-	defer os.RemoveAll(filepath.Join(c.Dir, "logs", tag))
+	defer os.RemoveAll(filepath.Join(m.dir, "logs", tag))
 	c.Count("instances", 1)
 	c.Count("sites", int64(len(sites)))
 	var ports []int
@@ -331,7 +406,7 @@ func (m *monitor) runBlock(tag string, b *block, perms [][]int, confirmLogs bool
 			if s.runs[0][i].key != s.runs[1][i].key {
 				if !flaky[i] {
 					c.Count("self_mismatch_requests_excluded", 1)
-					fmt.Printf("NOTE property=C09 self-mismatch (excluded, not judged): block %s site %d request %s field %s units=%v\n",
+					fmt.Fprintf(noteOut, "NOTE property=C09 self-mismatch (excluded, not judged): block %s site %d request %s field %s units=%v\n",
 						tag, si, m.bat[i].Name, diffField(s.runs[0][i], s.runs[1][i]), b.ids(s.order))
 				}
 				flaky[i] = true
@@ -383,13 +458,13 @@ func (m *monitor) runBlock(tag string, b *block, perms [][]int, confirmLogs bool
 			orig.extra, s.extra = true, true
 			if !confirmed {
 				c.Count("unstable_differences_excluded", 1)
-				fmt.Printf("NOTE property=C09 unstable difference (excluded, not judged): block %s request %s\n", tag, q.Name)
+				fmt.Fprintf(noteOut, "NOTE property=C09 unstable difference (excluded, not judged): block %s request %s\n", tag, q.Name)
 				continue
 			}
 			m.reportDiff(tag, b, s, i, a, p, text)
 		}
 	}
-	lib.StopWait(inst)
+	m.stop(inst, len(sites))
 
 	// log files
 	for si := 1; si < len(sites); si++ {
@@ -465,16 +540,18 @@ func readLogs(dir string, nz *normaliser) map[string][]string {
 func (m *monitor) loadFailure(tag string, b *block, orders [][]int, text string, err error) {
 	c := m.c
 	_, inst, _, e0 := m.startSites(tag+"-o", b, orders[:1])
+	defer os.RemoveAll(filepath.Join(m.dir, "logs", tag+"-o"))
+	defer os.RemoveAll(filepath.Join(m.dir, "logs", tag+"-p"))
 	if e0 != nil {
 		c.Count("blocks_rejected_at_load", 1)
 		c.Inconclusive(fmt.Sprintf("generated block %s does not load (generator defect): %v; units=%v", tag, e0, b.ids(orders[0])))
 		return
 	}
-	lib.StopWait(inst)
+	m.stop(inst, 1)
 	for _, o := range orders[1:] {
 		_, inst, t1, e1 := m.startSites(tag+"-p", b, [][]int{o})
 		if e1 == nil {
-			lib.StopWait(inst)
+			m.stop(inst, 1)
 			continue
 		}
 		if bindErr(e1) {
@@ -486,8 +563,6 @@ func (m *monitor) loadFailure(tag string, b *block, orders [][]int, text string,
 	}
 	c.Count("blocks_rejected_at_load", 1)
 	c.Inconclusive(fmt.Sprintf("block %s: combined Casketfile failed to load (%v) although every site loads alone", tag, err))
-	os.RemoveAll(filepath.Join(c.Dir, "logs", tag+"-o"))
-	os.RemoveAll(filepath.Join(c.Dir, "logs", tag+"-p"))
 }
 
 // reportDiff reports a confirmed difference, after trying to localise the
@@ -539,8 +614,8 @@ func (m *monitor) localiseSwap(tag string, b *block, target []int, q breq) (stri
 	if err != nil {
 		return "", "", nil, false
 	}
-	defer lib.StopWait(inst)
-	defer os.RemoveAll(filepath.Join(m.c.Dir, "logs", tag+"-loc"))
+	defer m.stop(inst, len(sites))
+	defer os.RemoveAll(filepath.Join(m.dir, "logs", tag+"-loc"))
 	var ports []int
 	for _, s := range sites {
 		ports = append(ports, s.port)
@@ -570,7 +645,7 @@ func (m *monitor) localiseSwap(tag string, b *block, target []int, q breq) (stri
 func (m *monitor) observeCoverage(b *block, s *site) {
 	c := m.c
 	for _, u := range b.Units {
-		c.Count("blocks_with_"+u.Dir, 1)
+		c.Count("instances_with_"+u.Dir, 1)
 	}
 	distinct := map[string]bool{}
 	m.invMu.Lock()
@@ -622,11 +697,76 @@ func (m *monitor) observeCoverage(b *block, s *site) {
 
 // ---------------------------------------------------------------- run
 
+func newMonitor(c recorder, dir, root string) (*monitor, error) {
+	be, err := startBackend()
+	if err != nil {
+		return nil, err
+	}
+	m := &monitor{c: c, dir: dir, root: root, be: be, bat: battery(), listPos: map[string]int{}, siteSem: make(chan struct{}, 64), ports: newPortBudget(340),
+		localise: 4, invPairs: map[string]bool{}, mwPairs: map[string]bool{}}
+	for i, d := range casket.ValidDirectives("http") {
+		m.listPos[d] = i
+	}
+	m.answers = make([]map[string]bool, len(m.bat))
+	for i := range m.answers {
+		m.answers[i] = map[string]bool{}
+	}
+	return m, nil
+}
+
+// job is one block with its reorderings; Units are pool IDs in file order.
+type job struct {
+	Tag   string   `json:"tag"`
+	Units []string `json:"units"`
+	Perms [][]int  `json:"perms"`
+}
+
+func blockFromIDs(ids []string) *block {
+	byID := map[string]unit{"root": rootUnit}
+	for _, u := range pool() {
+		byID[u.ID] = u
+	}
+	b := &block{N: len(ids)}
+	for _, id := range ids {
+		b.Units = append(b.Units, byID[id])
+	}
+	return b
+}
+
+// runJobs is oracle 1 over a list of jobs, 10 blocks at a time.
+func (m *monitor) runJobs(jobs []job) {
+	ch := make(chan job)
+	var wg sync.WaitGroup
+	for w := 0; w < 10; w++ {
+		wg.Add(1)
+		go func() {
+			defer wg.Done()
+			for j := range ch {
+				b := blockFromIDs(j.Units)
+				// at most 30 reorderings per instance (the original block is
+				// loaded again with every chunk)
+				for lo, part := 0, 0; lo < len(j.Perms); lo, part = lo+30, part+1 {
+					hi := lo + 30
+					if hi > len(j.Perms) {
+						hi = len(j.Perms)
+					}
+					m.runBlock(fmt.Sprintf("%s.%d", j.Tag, part), b, j.Perms[lo:hi], false)
+				}
+			}
+		}()
+	}
+	for _, j := range jobs {
+		ch <- j
+	}
+	close(ch)
+	wg.Wait()
+}
+
 func run(c *lib.Ctx) {
-	c.Rule("(1) metamorphic: server blocks of 4-10 lines drawn from 81 deterministic variants of 22 standard directives plus the harness' innermost `verifprobe` (root, bind, index, log, rewrite, ext, tryfiles, gzip, header, errors, basicauth, redir, status, mime, internal, templates, proxy->harness backend `policy first`, markdown, browse, limits, timeouts, request_id); " +
+	c.Rule("(1) metamorphic: server blocks of 4-10 lines drawn from 78 deterministic line variants of 22 standard directives plus the harness' innermost `verifprobe` (root, bind, index, log, rewrite, ext, tryfiles, gzip, header, errors, basicauth, redir, status, mime, internal, templates, proxy->harness backend `policy first`, markdown, browse, limits, timeouts, request_id); " +
 		"each block and k reorderings of its lines that keep same-directive lines in relative order (ALL such reorderings for blocks of <=5 lines; else reversal, canonical, reverse-canonical + seeded random) run as sites of one instance over one root fixture; a fixed battery of 92 requests is sent twice to each site; " +
 		"compared: status, header multiset minus Date (UUIDs masked), decoded body, backend hit count, what the innermost handler saw (path, query, body bytes, limit error), access/error log files. evaluation = one (block, reordering) pair through the whole battery; non-trivial = the reordering inverts at least one pair of different middleware-adding directives. " +
-		"(2) precedence: one block combining rewrite, basicauth, redir, internal, log, gzip, header, errors and every content handler (static, templates, proxy, markdown, browse) in canonical/reverse/random line orders, judged with content tokens and the backend hit counter; evaluation = one (line order, precedence fact); " +
+		"(2) precedence: one block combining rewrite/ext/tryfiles, basicauth, redir, internal, log, gzip, header, errors and every content handler (static, templates, proxy, markdown, browse) in canonical/reverse/random line orders, judged with content tokens and the backend hit counter; evaluation = one (line order, precedence fact); " +
 		"(3) every ordered pair of the statement's partial order looked up in casket.ValidDirectives(\"http\")")
 	lib.CaptureLog()
 	root := filepath.Join(c.Dir, "root")
@@ -637,21 +777,13 @@ func run(c *lib.Ctx) {
 		return
 	}
 	c.Set("fixture_files", nfiles)
-	be, err := startBackend()
+	m, err := newMonitor(c, c.Dir, root)
 	if err != nil {
 		c.Inconclusive("backend: " + err.Error())
 		c.Count("broken_floor", 1)
 		return
 	}
-	m := &monitor{c: c, root: root, be: be, bat: battery(), listPos: map[string]int{}, siteSem: make(chan struct{}, 64),
-		localise: 4, invPairs: map[string]bool{}, mwPairs: map[string]bool{}}
-	for i, d := range casket.ValidDirectives("http") {
-		m.listPos[d] = i
-	}
-	m.answers = make([]map[string]bool, len(m.bat))
-	for i := range m.answers {
-		m.answers[i] = map[string]bool{}
-	}
+	m.ctx = c
 	c.Set("battery_requests", len(m.bat))
 
 	// C09_PART=list|precedence|metamorphic restricts a development run to one
@@ -663,21 +795,17 @@ func run(c *lib.Ctx) {
 	if part == "" || part == "precedence" {
 		m.precedence()
 	}
+	m.be.ln.Close()
 	if part != "" && part != "metamorphic" {
 		return
 	}
 
-	// ---- oracle 1
+	// ---- oracle 1: case list
 	p := pool()
 	c.Set("pool_variants", len(p)+1)
-	nBlocks := c.Pick(150, 3000)
-	k := 6
+	nBlocks := c.Pick(300, 3000)
+	k := c.Pick(6, 10)
 	rng := c.Rng("c09-blocks")
-	type job struct {
-		tag   string
-		b     *block
-		perms [][]int
-	}
 	var jobs []job
 	for bi := 0; bi < nBlocks; bi++ {
 		// sizes 4..10; the exhaustive sizes (4, 5) are drawn less often
@@ -702,37 +830,39 @@ func run(c *lib.Ctx) {
 		if bi < 3 {
 			c.SampleTag("metamorphic", 3, map[string]interface{}{"units_file_order": b.ids(identity(len(b.Units))), "reorderings": len(perms), "first_reordering": b.ids(perms[0])})
 		}
-		jobs = append(jobs, job{fmt.Sprintf("b%d", bi), b, perms})
+		jobs = append(jobs, job{fmt.Sprintf("b%d", bi), b.ids(identity(len(b.Units))), perms})
 	}
-	ch := make(chan job)
-	var wg sync.WaitGroup
-	for w := 0; w < 10; w++ {
-		wg.Add(1)
-		go func() {
-			defer wg.Done()
-			for j := range ch {
-				m.runBlock(j.tag, j.b, j.perms, false)
-			}
-		}()
+	c.Count("blocks", int64(len(jobs)))
+
+	// ---- batches in child processes, one at a time (children share one
+	// private port range; every loaded configuration leaves a certmagic
+	// maintenance goroutine and log-roller goroutines behind, so a process is
+	// only trusted with a bounded number of them)
+	const batch = 250
+	inv, mw := map[string]bool{}, map[string]bool{}
+	answers := make([]map[string]bool, len(m.bat))
+	for i := range answers {
+		answers[i] = map[string]bool{}
 	}
-	for _, j := range jobs {
-		ch <- j
+	for lo, bi := 0, 0; lo < len(jobs); lo, bi = lo+batch, bi+1 {
+		hi := lo + batch
+		if hi > len(jobs) {
+			hi = len(jobs)
+		}
+		runBatch(c, bi, childInput{Root: root, Dir: filepath.Join(c.Dir, fmt.Sprintf("batch%d", bi)), Jobs: jobs[lo:hi]}, inv, mw, answers)
 	}
-	close(ch)
-	wg.Wait()
-	be.ln.Close()
 
 	var constant []string
 	for i, q := range m.bat {
-		if len(m.answers[i]) < 2 {
+		if len(answers[i]) < 2 {
 			constant = append(constant, q.Name)
 		}
 	}
 	c.Set("battery_requests_with_configuration_dependent_answers", len(m.bat)-len(constant))
 	c.Set("battery_requests_answered_identically_by_every_block", constant)
-	c.Set("distinct_inverted_directive_pairs", len(m.invPairs))
-	c.Set("distinct_inverted_middleware_pairs", len(m.mwPairs))
-	c.Count("inverted_middleware_pairs", int64(len(m.mwPairs)))
+	c.Set("distinct_inverted_directive_pairs", len(inv))
+	c.Set("distinct_inverted_middleware_pairs", len(mw))
+	c.Count("inverted_middleware_pairs", int64(len(mw)))
 	c.Floor("responses_compared", int64(nBlocks)*int64(len(m.bat))*3)
 	c.Floor("inverted_middleware_pairs", 100)
 	for _, f := range []string{"saw_401", "saw_redirect", "saw_404", "saw_gzip", "saw_backend_hit", "saw_template_rendered", "saw_markdown_rendered", "saw_error_page", "saw_browse_listing", "saw_probe_hit", "saw_body_limit_enforced", "log_files_compared"} {
@@ -744,7 +874,7 @@ func run(c *lib.Ctx) {
 	if c.Get("self_mismatch_requests_excluded")*50 > c.Get("responses_compared") {
 		c.Floor("self_mismatches_below_2_percent", 1)
 	}
-	c.Assume("the directive alphabet is the 80 line variants in gen.go; directives with inherently order-unrelated nondeterminism (random policies, time placeholders, conflicting header operations inside one rule) are excluded by construction")
+	c.Assume("the directive alphabet is the 78 line variants in gen.go; directives with inherently order-unrelated nondeterminism (random policies, time placeholders, conflicting header operations inside one rule, request bodies over the limit relayed by the proxy) are excluded by construction")
 	c.Assume("sites are host-less (http://:port) and every request carries Host: " + siteHost + ", so that no response legitimately contains site-specific text; the listener port is still masked")
 	c.Assume("requests are HTTP/1.1 over plain TCP on loopback, sequential per site; timeouts values are loaded but their effect is not timed")
 }
